@@ -244,3 +244,50 @@ Theorem C03_model_cdf_lumping_any_sound_backend :
     = cdf OpsR expm SsC SlastC (vmat OpsR alphaL P) eC ts.
 Proof. exact: cdf_lumping. Qed.
 Print Assumptions C03_model_cdf_lumping_any_sound_backend.
+
+(* ---- the tie to phasegen/distributions.py by translation: TreeHeightDistribution.cdf (gen/LoopsGen.v is regenerated from the
+        source on every run; proofs/GenLoopsEquiv.v proves it equal to the model's cdf; analysis/SourceLoops.v transports the
+        analytic facts) ---- *)
+From PG Require Import gen.NpLoops gen.LoopsGen proofs.GenLoopsEquiv analysis.SourceLoops.
+
+Theorem C03_distributions_py_cdf_is_the_model :
+  forall (expm : seq (seq R) -> seq (seq R)) (Ss : seq (Q * seq (seq R))) (Slast : seq (seq R)) (alpha e : seq R) (ts : seq Q),
+    TreeHeightDistribution_cdf OpsR expm (length Slast) (all_epochs Ss Slast) alpha e ts = cdf OpsR expm Ss Slast alpha e ts.
+Proof. exact: gen_cdf_eq_model_R. Qed.
+Print Assumptions C03_distributions_py_cdf_is_the_model.
+
+Theorem C03_distributions_py_cdf_values_are_probabilities :
+  forall expm : seq (seq R) -> seq (seq R),
+    (forall n A, wf n n A -> wf n n (expm A) /\ mx_of n n (expm A) = mexp (mx_of n n A)) ->
+  forall (n : nat) (Ss : seq (Q * seq (seq R))) (Slast : seq (seq R)) (alpha e : seq R) (ts : seq Q),
+    List.Forall (fun x : Q * seq (seq R) => is_generator n x.2) Ss -> is_generator n Slast ->
+    is_prob n alpha -> is_01 n e ->
+    epochs_wf (seq (seq R)) 0%QQ Ss -> List.Forall (fun t => (0 <= t)%QQ) ts ->
+    List.Forall (fun x : R => Rle R0 x /\ Rle x R1)
+                (TreeHeightDistribution_cdf OpsR expm (length Slast) (all_epochs Ss Slast) alpha e ts).
+Proof. exact: source_cdf_values_are_probabilities. Qed.
+Print Assumptions C03_distributions_py_cdf_values_are_probabilities.
+
+Theorem C03_distributions_py_cdf_monotone :
+  forall expm : seq (seq R) -> seq (seq R),
+    (forall n A, wf n n A -> wf n n (expm A) /\ mx_of n n (expm A) = mexp (mx_of n n A)) ->
+  forall (n : nat) (Ss : seq (Q * seq (seq R))) (Slast : seq (seq R)) (alpha e : seq R) (t1 t2 : Q),
+    List.Forall (fun x : Q * seq (seq R) => is_generator n x.2 /\ abs_closed n x.2 e) Ss ->
+    is_generator n Slast -> abs_closed n Slast e ->
+    is_prob n alpha -> is_01 n e ->
+    epochs_wf (seq (seq R)) 0%QQ Ss -> (0 <= t1)%QQ -> (t1 <= t2)%QQ ->
+    Rle (List.nth 0 (TreeHeightDistribution_cdf OpsR expm (length Slast) (all_epochs Ss Slast) alpha e [:: t1]) 0)
+        (List.nth 0 (TreeHeightDistribution_cdf OpsR expm (length Slast) (all_epochs Ss Slast) alpha e [:: t2]) 0).
+Proof. exact: source_cdf_monotone. Qed.
+Print Assumptions C03_distributions_py_cdf_monotone.
+
+Theorem C03_distributions_py_cdf_denotes_absorption_probability :
+  forall expm : seq (seq R) -> seq (seq R),
+    (forall n A, wf n n A -> wf n n (expm A) /\ mx_of n n (expm A) = mexp (mx_of n n A)) ->
+  forall (n : nat) (Ss : seq (Q * seq (seq R))) (Slast : seq (seq R)) (alpha e : seq R) (ts : seq Q),
+    all_wf n Ss -> wf n n Slast -> size e = n ->
+    epochs_wf (seq (seq R)) 0%QQ Ss -> List.Forall (fun t => (0 <= t)%QQ) ts ->
+    TreeHeightDistribution_cdf OpsR expm (length Slast) (all_epochs Ss Slast) alpha e ts =
+    List.map (fun t => 1 - (rv_of n alpha *m TM n Ss Slast t *m cv_of n e) ord0 ord0) ts.
+Proof. exact: source_cdf_denotes_absorption_probability. Qed.
+Print Assumptions C03_distributions_py_cdf_denotes_absorption_probability.
